@@ -607,12 +607,16 @@ class KeychainSqlite3(Keychain):
             return None
         if sign_args.get('digest_sha256', False):
             return DigestSha256Signer()
+        def given(val):
+            # An Identity or a Key is a Mapping: without members it is falsy, but it still is a selection
+            return isinstance(val, (Identity, Key, Certificate)) or bool(val)
+
         cert_name = sign_args.get('cert', None)
-        if not cert_name:
+        if not given(cert_name):
             key_name = sign_args.get('key', None)
-            if not key_name:
+            if not given(key_name):
                 id_name = sign_args.get('identity', None)
-                if id_name:
+                if given(id_name):
                     if isinstance(id_name, Identity):
                         identity = id_name
                     else:
